@@ -45,6 +45,8 @@ type FuncCtx struct {
 	Name    string
 	decls   []string
 	facts   []string
+	defTag  map[int][2]int // fact index -> (lo,hi]: the fact is a callee postcondition defining the symbols created with counter values in (lo,hi]
+	defCur  *[2]int        // set while the postconditions of a call are assumed
 	n       int
 	Obls    []*Obligation
 	inputs  []InputLeaf // symbolic inputs for replay
@@ -117,6 +119,12 @@ func (c *FuncCtx) assume(pc, fact string) {
 	} else {
 		c.facts = append(c.facts, "(assert (=> "+pc+" "+fact+"))")
 	}
+	if c.defCur != nil {
+		if c.defTag == nil {
+			c.defTag = map[int][2]int{}
+		}
+		c.defTag[len(c.facts)-1] = [2]int{c.defCur[0], c.n}
+	}
 }
 
 // oblige registers an obligation.
@@ -158,6 +166,7 @@ func (o *Obligation) QueryWith(forCVC5 bool, wantModel bool, extra string) strin
 	}
 	si := 0
 	var facts []string
+	var factIdx []int
 	for i, f := range c.facts[:o.NFact] {
 		for si < len(o.Skip) && i >= o.Skip[si][1] {
 			si++
@@ -166,8 +175,10 @@ func (o *Obligation) QueryWith(forCVC5 bool, wantModel bool, extra string) strin
 			continue
 		}
 		facts = append(facts, f)
+		factIdx = append(factIdx, i)
 	}
 	if o.prune {
+		facts = o.pruneDefs(facts, factIdx, extra)
 		facts = o.pruneFacts(facts, extra)
 	}
 	for _, f := range facts {
@@ -399,64 +410,205 @@ func (c *FuncCtx) arraySyms(s string, into map[string]bool) {
 	}
 }
 
-// pruneFacts drops quantified hypotheses that cannot be connected to the goal: a quantified
-// fact is kept only if an array symbol of its patterns (of its body, if it has no pattern) is
-// reachable from the array symbols of the goal through ground facts and kept quantified facts.
-// Dropping hypotheses is sound (the pruned query implies the full one is unsat if it is unsat).
+// ---- hypothesis pruning (used by the "pruned" portfolio members; dropping hypotheses is always sound) ----
+//
+// Reachability is computed over atoms: a flat array constant (ghost map, array temporary) is one atom;
+// a heap (array of arrays, one per element type and field) is split per array identity: a read
+// (select (select H A) i) is the atom H@A, any other occurrence of H is the wildcard H@*. A quantified
+// hypothesis is kept only if an atom of its patterns is reachable from the goal; heap updates
+// (H2 = store(H1, A, C)), heap equalities at control-flow merges and frame axioms propagate
+// reachability per array identity, so hypotheses about arrays the goal never reads are dropped.
+
+type reachSet struct {
+	flat map[string]bool
+	heap map[string]map[string]bool // heap symbol -> array terms ("*" = every array)
+}
+
+func (r *reachSet) addHeap(h, a string) bool {
+	m := r.heap[h]
+	if m == nil {
+		m = map[string]bool{}
+		r.heap[h] = m
+	}
+	if m[a] || m["*"] {
+		return false
+	}
+	m[a] = true
+	return true
+}
+
+func (r *reachSet) hit(atom string) bool {
+	k := strings.Index(atom, "@")
+	if k < 0 {
+		return r.flat[atom]
+	}
+	m := r.heap[atom[:k]]
+	if len(m) == 0 {
+		return false
+	}
+	a := atom[k+1:]
+	return a == "*" || m["*"] || m[a]
+}
+
+func (r *reachSet) add(atom string) bool {
+	k := strings.Index(atom, "@")
+	if k < 0 {
+		if r.flat[atom] {
+			return false
+		}
+		r.flat[atom] = true
+		return true
+	}
+	return r.addHeap(atom[:k], atom[k+1:])
+}
+
+func (c *FuncCtx) isHeapSym(s string) bool { return strings.HasPrefix(c.sorts[s], "(Array Int (Array") }
+func (c *FuncCtx) isFlatArr(s string) bool {
+	return strings.HasPrefix(c.sorts[s], "(Array") && !c.isHeapSym(s)
+}
+
+// atomsOf lists the atoms of a formula.
+func (c *FuncCtx) atomsOf(s string) []string {
+	var out []string
+	for _, loc := range quotedSymRe.FindAllStringIndex(s, -1) {
+		sym := s[loc[0]:loc[1]]
+		if c.isFlatArr(sym) {
+			out = append(out, sym)
+			continue
+		}
+		if !c.isHeapSym(sym) {
+			continue
+		}
+		a := "*"
+		if loc[0] >= 8 && s[loc[0]-8:loc[0]] == "(select " && loc[1] < len(s) && s[loc[1]] == ' ' {
+			rest := s[loc[1]+1:]
+			switch {
+			case strings.HasPrefix(rest, "|"):
+				if k := strings.IndexByte(rest[1:], '|'); k >= 0 {
+					a = rest[:k+2]
+				}
+			case strings.HasPrefix(rest, "("):
+				if e := sexprEnd(rest, 0); e >= 0 {
+					a = rest[:e+1]
+				}
+			}
+		}
+		out = append(out, sym+"@"+a)
+	}
+	return out
+}
+
+var heapStoreRe = regexp.MustCompile(`^\(assert \(= (\|[^|]*\|) \(store (\|[^|]*\|) `)
+var heapEqRe = regexp.MustCompile(`\(= (\|[^|]*\|) (\|[^|]*\|)\)`)
+var frameAxRe = regexp.MustCompile(`^\(assert \(forall \(\(([a-z]![0-9]+) Int\)\) \(! \(=> .* \(= \(select (\|[^|]*\|) ([a-z]![0-9]+)\) \(select (\|[^|]*\|) ([a-z]![0-9]+)\)\)\) :pattern`)
+
+// pruneFacts drops quantified hypotheses that cannot be connected to the goal.
 func (o *Obligation) pruneFacts(facts []string, extra string) []string {
 	c := o.fn
-	reach := map[string]bool{}
-	c.arraySyms(o.Goal, reach)
-	c.arraySyms(extra, reach)
-	if len(reach) == 0 {
+	r := &reachSet{flat: map[string]bool{}, heap: map[string]map[string]bool{}}
+	seed := c.atomsOf(o.Goal)
+	seed = append(seed, c.atomsOf(extra)...)
+	if len(seed) == 0 {
 		return facts
 	}
+	for _, a := range seed {
+		r.add(a)
+	}
 	type fi struct {
-		quant bool
-		syms  map[string]bool
-		trig  map[string]bool
-		used  bool
+		quant    bool
+		atoms    []string
+		trig     []string
+		used     bool
+		linkFrom string // heap link: reachability of linkFrom flows to linkTo per array identity
+		linkTo   string
+		both     bool
+		rest     []string // other atoms that become reachable with the link (store: the stored array)
 	}
 	info := make([]*fi, len(facts))
 	for i, f := range facts {
-		x := &fi{syms: map[string]bool{}}
-		c.arraySyms(f, x.syms)
-		if strings.Contains(f, "(forall ") || strings.Contains(f, "(exists ") {
-			x.quant = true
-			x.trig = map[string]bool{}
-			rest := f
-			for {
-				k := strings.Index(rest, ":pattern ")
-				if k < 0 {
-					break
+		x := &fi{}
+		if m := frameAxRe.FindStringSubmatch(f); m != nil && c.isHeapSym(m[2]) && c.isHeapSym(m[4]) && m[1] == m[3] && m[1] == m[5] {
+			x.quant, x.linkFrom, x.linkTo = true, m[2], m[4]
+		} else if m := heapStoreRe.FindStringSubmatch(f); m != nil && c.isHeapSym(m[1]) && c.isHeapSym(m[2]) {
+			x.linkFrom, x.linkTo = m[1], m[2]
+			for _, a := range c.atomsOf(f) {
+				if !strings.HasPrefix(a, m[1]+"@") && !strings.HasPrefix(a, m[2]+"@") {
+					x.rest = append(x.rest, a)
 				}
-				rest = rest[k+9:]
-				e := sexprEnd(rest, 0)
-				if e < 0 {
-					break
-				}
-				c.arraySyms(rest[:e+1], x.trig)
-				rest = rest[e+1:]
 			}
-			if len(x.trig) == 0 {
-				x.trig = x.syms
+		} else if m := heapEqRe.FindStringSubmatch(f); m != nil && c.isHeapSym(m[1]) && c.isHeapSym(m[2]) && !strings.Contains(f, "(forall ") && len(c.atomsOf(f)) == 2 {
+			x.linkFrom, x.linkTo, x.both = m[1], m[2], true
+		} else {
+			x.atoms = c.atomsOf(f)
+			if strings.Contains(f, "(forall ") || strings.Contains(f, "(exists ") {
+				x.quant = true
+				rest := f
+				for {
+					k := strings.Index(rest, ":pattern ")
+					if k < 0 {
+						break
+					}
+					rest = rest[k+9:]
+					e := sexprEnd(rest, 0)
+					if e < 0 {
+						break
+					}
+					x.trig = append(x.trig, c.atomsOf(rest[:e+1])...)
+					rest = rest[e+1:]
+				}
+				if len(x.trig) == 0 {
+					x.trig = x.atoms
+				}
 			}
 		}
 		info[i] = x
 	}
+	flow := func(from, to string) bool {
+		ch := false
+		for a := range r.heap[from] {
+			if r.addHeap(to, a) {
+				ch = true
+			}
+		}
+		return ch
+	}
 	for changed := true; changed; {
 		changed = false
 		for _, x := range info {
-			if x.used || len(x.syms) == 0 {
+			if x.linkFrom != "" {
+				if len(r.heap[x.linkFrom]) > 0 {
+					if !x.used {
+						x.used, changed = true, true
+					}
+					if flow(x.linkFrom, x.linkTo) {
+						changed = true
+					}
+					for _, a := range x.rest {
+						if r.add(a) {
+							changed = true
+						}
+					}
+				}
+				if x.both && len(r.heap[x.linkTo]) > 0 {
+					if !x.used {
+						x.used, changed = true, true
+					}
+					if flow(x.linkTo, x.linkFrom) {
+						changed = true
+					}
+				}
 				continue
 			}
-			src := x.syms
+			if x.used || len(x.atoms) == 0 {
+				continue
+			}
+			src := x.atoms
 			if x.quant {
 				src = x.trig
 			}
 			hit := false
-			for s := range src {
-				if reach[s] {
+			for _, a := range src {
+				if r.hit(a) {
 					hit = true
 					break
 				}
@@ -466,8 +618,8 @@ func (o *Obligation) pruneFacts(facts []string, extra string) []string {
 			}
 			x.used = true
 			changed = true
-			for s := range x.syms {
-				reach[s] = true
+			for _, a := range x.atoms {
+				r.add(a)
 			}
 		}
 	}
@@ -486,4 +638,79 @@ func (o *Obligation) QueryPruned(forCVC5 bool) string {
 	o2 := *o
 	o2.prune = true
 	return o2.QueryWith(forCVC5, false, "")
+}
+
+var symIdxRe = regexp.MustCompile(`\|[^|]*!([0-9]+)\|`)
+
+// pruneDefs drops callee postconditions that only define symbols nobody uses: a fact assumed from
+// the postconditions of a call (tagged with the counter range of the symbols that call created:
+// results, havoced fields, new heaps and ghosts) is kept only if one of those symbols is relevant,
+// i.e. occurs in the goal, in the path condition, in an untagged fact or in a kept tagged fact.
+func (o *Obligation) pruneDefs(facts []string, idx []int, extra string) []string {
+	c := o.fn
+	if len(c.defTag) == 0 {
+		return facts
+	}
+	rel := map[string]bool{}
+	add := func(s string) {
+		for _, m := range quotedSymRe.FindAllString(s, -1) {
+			rel[m] = true
+		}
+	}
+	add(o.Goal)
+	add(o.PC)
+	add(extra)
+	type tf struct {
+		own  []string
+		all  []string
+		kept bool
+	}
+	tagged := map[int]*tf{}
+	for k, f := range facts {
+		tg, ok := c.defTag[idx[k]]
+		if !ok {
+			add(f)
+			continue
+		}
+		t := &tf{}
+		for _, m := range symIdxRe.FindAllStringSubmatch(f, -1) {
+			n := 0
+			fmt.Sscan(m[1], &n)
+			t.all = append(t.all, m[0])
+			if n > tg[0] && n <= tg[1] {
+				t.own = append(t.own, m[0])
+			}
+		}
+		if len(t.own) == 0 {
+			t.kept = true
+			add(f)
+		}
+		tagged[k] = t
+	}
+	for changed := true; changed; {
+		changed = false
+		for _, t := range tagged {
+			if t.kept {
+				continue
+			}
+			for _, s := range t.own {
+				if rel[s] {
+					t.kept = true
+					changed = true
+					for _, a := range t.all {
+						rel[a] = true
+					}
+					break
+				}
+			}
+		}
+	}
+	var out []string
+	for k, f := range facts {
+		if t, ok := tagged[k]; ok && !t.kept {
+			continue
+		}
+		out = append(out, f)
+	}
+	return out
 }
